@@ -112,7 +112,8 @@ class AxolotlControlLayer(AxolotlBaseLayer):
         self.manager.set_prekeys_as_sent(prekeys)
         if reboot_connection:
             self._reboot_connection = True
-            self.broadcastEvent(YowLayerEvent(YowNetworkLayer.EVENT_STATE_DISCONNECT))
+            # stack-wide, so that the layers above (the keep-alive of the iq layer) learn about it as well
+            self.getStack().broadcastEvent(YowLayerEvent(YowNetworkLayer.EVENT_STATE_DISCONNECT))
 
     def onSentKeysError(self, errorNode, keysEntity):
         raise Exception("Sent keys were not accepted")
